@@ -135,6 +135,11 @@ def lazy_parallel_map(
 
         def terminate(ex: pathos.multiprocessing.ProcessPool, q):
             ex.terminate()
+            # pathos caches the pool: without clearing the cache the next
+            # ProcessPool(...) returns this terminated pool and every further
+            # iteration fails with "Pool not running".
+            ex.join()
+            ex.clear()
             # Cancel doesn't work for pathos. Don't know why.
             # try:
             #     while True:
